@@ -48,6 +48,7 @@ class Printer:
     def __init__(self):
         self.pre = []
         self.nummacros = 0
+        self.depth = 0          # number of definition bodies we are inside
 
     def operand(self, o):
         if o[0] == 'lit' and len(o) > 3 and o[3]:
@@ -112,12 +113,19 @@ class Printer:
                     s += '[%d]' % total
                 if default is not None:
                     s += '[' + self.nodes(default) + ']'
-                return s + '{' + self.nodes(body) + '}'
+                self.depth += 1
+                b = self.nodes(body)
+                self.depth -= 1
+                return s + '{' + b + '}'
             delims = how.get('delims') or [''] * (np + 1)
-            pat = delims[0] + ''.join('#%d%s' % (i + 1, delims[i + 1]) for i in range(np))
+            hashes = '#' * (2 ** self.depth)      # a definition nested in a body doubles the parameter character
+            pat = delims[0] + ''.join('%s%d%s' % (hashes, i + 1, delims[i + 1]) for i in range(np))
+            self.depth += 1
+            b = self.nodes(body)
+            self.depth -= 1
             if how.get('csname'):
-                return '\\expandafter\\%s\\csname %s\\endcsname%s{%s}' % ('gdef' if g else 'def', mac(name), pat, self.nodes(body))
-            return '\\%s\\%s%s{%s}' % ('gdef' if g else 'def', mac(name), pat, self.nodes(body))
+                return '\\expandafter\\%s\\csname %s\\endcsname%s{%s}' % ('gdef' if g else 'def', mac(name), pat, b)
+            return '\\%s\\%s%s{%s}' % ('gdef' if g else 'def', mac(name), pat, b)
         if k == 'let':
             return '\\let\\%s=\\%s ' % (mac(n[1]), mac(n[2]))
         if k == 'call':
@@ -142,6 +150,10 @@ class Printer:
             return s + ''.join('{' + self.nodes(a) + '}' for a in args)
         if k == 'param':
             return '#%d' % n[1]
+        if k == 'param2':
+            return '##%d' % n[1]
+        if k == 'expandafter':
+            return '\\expandafter\\%s\\%s ' % (mac(n[1]), mac(n[2]))
         if k == 'hash':
             return '##'
         if k == 'cond':
@@ -250,6 +262,10 @@ def w_node(n):
         return [4, n[1], w_opt(n[2]), [w_nodes(a) for a in n[3]]]
     if k == 'param':
         return [5, n[1]]
+    if k == 'param2':
+        return [15, n[1]]
+    if k == 'expandafter':
+        return [14, n[1], n[2]]
     if k == 'hash':
         return 6
     if k == 'cond':
